@@ -116,6 +116,35 @@ func DrawScenario(t *Tape, property string) (*Scenario, Config) {
 
 // applyProfile: per-property scenario weights and fault mix.  The set of active oracles never depends on it.
 func applyProfile(t *Tape, property string, sc *Scenario, cfg *Config) {
+	switch property {
+	case "C12":
+		sc.RolloutID = true
+		if t.Next(2) == 1 {
+			sc.Events = append(sc.Events, UserEvent{Kind: "hostile-pod-labels", AtStep: 1 + t.Next(len(sc.Steps)), AtState: stepStates[1+t.Next(5)], Arg: t.Next(1000)})
+		}
+	case "C17":
+		sc.Family = "deploy-partition"
+		for i := range sc.Steps {
+			if sc.Traffic != "" && strings.HasSuffix(sc.Steps[i].Replicas, "%") {
+				p := 0
+				fmt.Sscanf(sc.Steps[i].Replicas, "%d%%", &p)
+				if p > 50 {
+					sc.Steps[i].Weight, sc.Steps[i].Header = -1, ""
+				}
+			}
+		}
+		sc.MaxSurge = []string{"", "0", "1", "50%", "100%"}[t.Next(5)]
+		sc.MaxUnav = []string{"", "0", "1", "50%"}[t.Next(4)]
+		if sc.MaxSurge == "0" && sc.MaxUnav == "0" {
+			sc.MaxUnav = "1"
+		}
+	case "C08":
+		for i, n := 0, 1+t.Next(3); i < n; i++ {
+			kinds := []string{"touch-annotation", "unpause-workload", "scale", "reissue-rollout-id", "release-v3"}
+			ev := UserEvent{Kind: kinds[t.Next(len(kinds))], AtStep: 1 + t.Next(len(sc.Steps)), AtState: stepStates[t.Next(len(stepStates))], Arg: 1 + t.Next(10)}
+			sc.Events = append(sc.Events, ev)
+		}
+	}
 	faulty := false
 	switch property {
 	case "C06", "C18", "C19":
